@@ -9,6 +9,9 @@ CONSTANTS
   MaxRej = 0
   Impl = "fixed"
   Sym = FALSE
+  NCallers = 4
+  Removal = "skip"
+  Emit = "none"
 CONSTRAINT HighWater
 POSTCONDITION Accepted
 CHECK_DEADLOCK FALSE
